@@ -51,6 +51,7 @@ func BuffaloRenderer(input string, data map[string]interface{}, helpers map[stri
 // Parse an input string and return a Template, and caches the parsed template.
 func Parse(input string) (*Template, error) {
 	if !CacheEnabled {
+		verifParse("uncached", input, nil)
 		return NewTemplate(input)
 	}
 
@@ -59,15 +60,18 @@ func Parse(input string) (*Template, error) {
 
 	t, ok := cache[input]
 	if ok {
+		verifParse("hit", input, t)
 		return t, nil
 	}
 
 	t, err := NewTemplate(input)
 	if err != nil {
+		verifParse("missfail", input, t)
 		return t, err
 	}
 
 	cache[input] = t
+	verifParse("miss", input, t)
 	return t, nil
 }
 
